@@ -87,26 +87,30 @@ Lemma filter_map_pair {B} (f : key -> bool) (h : key -> B) l :
   filter (fun c : key * B => f (fst c)) (map (fun k => (k, h k)) l) = map (fun k => (k, h k)) (filter f l).
 Proof. induction l as [|a l IH]; [reflexivity|]. simpl. destruct (f a); simpl; now rewrite IH. Qed.
 
-Theorem view_is_filter f i : prefix_closed f -> (forall x, In x i -> fst x <> []) ->
-  view_items_q f i = filter_res (fun c : key * option entry => f (fst c)) (items_q [] false i).
+(* the view never yields the entry at the root key; every other key is yielded exactly when it passes the filter *)
+Definition vf (f : key -> bool) : key -> bool := fun k => match k with [] => false | _ => f k end.
+
+Theorem view_is_filter f i : prefix_closed f ->
+  view_items_q f i = filter_res (fun c : key * option entry => vf f (fst c)) (items_q [] false i).
 Proof.
-  intros PC NR. unfold view_items_q, items_q, filter_res. f_equal. simpl.
-  match goal with |- context [filter (pathok f) ?l] => rewrite (filter_ext_in (pathok f) f l) end.
-  2:{ intros k Hk. apply in_map_iff in Hk as [x [<- Hx]]. apply pathok_closed; auto. }
+  intros PC. unfold view_items_q, items_q, filter_res. f_equal. simpl.
+  assert (forall k, pathok f k = vf f k) as HH.
+  { intros k. destruct k as [|a t]; [reflexivity|]. apply (pathok_closed f (a :: t) PC). discriminate. }
+  match goal with |- context [filter (pathok f) ?l] => rewrite (filter_ext (pathok f) (vf f) HH l) end.
   assert (forall (l : list key), filter (fun _ => true) l = l) as FT.
   { induction l as [|a l IH]; [reflexivity|]. simpl. now rewrite IH. }
   rewrite FT, usort_keys_filter.
-  symmetry. apply filter_map_pair.
+  symmetry. apply (filter_map_pair (vf f)).
 Qed.
 
 (* on the fully loaded index the view iteration is the filtered iteration, as operations *)
 Theorem view_step_is_filter E f i : ok E i -> wf E i -> prefix_closed f ->
   snd (view_items_step E (load_all E i) f) =
-  filter_res (fun c : key * option entry => f (fst c)) (snd (items_step E (load_all E i) [] false)).
+  filter_res (fun c : key * option entry => vf f (fst c)) (snd (items_step E (load_all E i) [] false)).
 Proof.
   intros Hok Hwf PC. unfold view_items_step. rewrite guarded_full by assumption.
   rewrite items_full by assumption. simpl.
-  apply view_is_filter; [assumption|]. apply (wf_load_where E s_all i Hok Hwf).
+  now apply view_is_filter.
 Qed.
 
 (* ---- the fs adaptor: paths and keys ---- *)
@@ -240,9 +244,7 @@ Proof.
 Qed.
 Lemma ex_wf : wf ex_env ex_idx.
 Proof.
-  split.
-  - intros x y [<-|[<-|[]]] [<-|[<-|[]]] L P; try reflexivity; vm_compute in L, P; discriminate.
-  - intros x [<-|[<-|[]]]; discriminate.
+  intros x y [<-|[<-|[]]] [<-|[<-|[]]] L P; try reflexivity; vm_compute in L, P; discriminate.
 Qed.
 Example ex_nontrivial :
   length (load_all ex_env ex_idx) = 5%nat /\
